@@ -47,6 +47,33 @@ def src_text(span, cache={}):
     return "\n".join(out)
 
 
+def split_call(t):
+    """`DEST = CALLEE(ARGS) -> ...` with generics that may contain parentheses. Returns
+    (dest, callee, args, rest) or None."""
+    m = re.match(r"(_\d+|\(\*_\d+\)|\([^=]+?\)) = ", t)
+    if not m:
+        return None
+    arrow = t.find(") -> ")
+    if arrow < 0:
+        return None
+    body = t[m.end():arrow + 1]
+    # find the "(" matching the final ")"
+    depth = 0
+    i = len(body) - 1
+    while i >= 0:
+        ch = body[i]
+        if ch == ")":
+            depth += 1
+        elif ch == "(":
+            depth -= 1
+            if depth == 0:
+                break
+        i -= 1
+    if i <= 0:
+        return None
+    return m.group(1), body[:i], body[i + 1:-1], t[arrow + 2:]
+
+
 class Block:
     def __init__(self, name, stmts, term, spans):
         self.name, self.stmts, self.term, self.spans = name, stmts, term, spans
@@ -68,7 +95,12 @@ class Cfg:
             b = Block(bb, stmts, term or "", spans)
             t = b.term
             tspan = spans[-1] if spans else None
-            m = re.match(r"(_\d+|\(\*_\d+\)|\([^=]+\)) = (.+?)\((.*)\) -> \[return: (bb\d+)", t)
+            sc = split_call(t) if " -> " in t and not t.startswith(("switchInt", "assert", "drop", "goto", "falseEdge", "falseUnwind")) else None
+            m = None
+            if sc:
+                rm = re.match(r"-> \[return: (bb\d+)", sc[3])
+                if rm:
+                    m = (sc[0], sc[1], sc[2], rm.group(1))
             if t.startswith("return"):
                 b.is_return = True
             elif t.startswith("goto -> "):
@@ -86,14 +118,13 @@ class Cfg:
                 b.drop = dm.group(1)
                 b.succ = [("drop", dm.group(2))]
             elif m:
-                b.call = (m.group(1), m.group(2), m.group(3), src_text(tspan))
-                b.succ = [("ret", m.group(4))]
+                b.call = (m[0], m[1], m[2], src_text(tspan))
+                b.succ = [("ret", m[3])]
             elif re.match(r".* = .+\(.*\) -> unwind", t) or t.startswith("unreachable") or "-> unwind" in t \
                     or re.match(r"(_\d+) = .+\(.*\) -> bb\d+;", t) or t.startswith("resume") or t.startswith("abort"):
                 # diverging call (panic) or unreachable: path ends, no return
-                dm = re.match(r"(_\d+) = (.+?)\((.*)\) -> ", t)
-                if dm:
-                    b.call = (dm.group(1), dm.group(2), dm.group(3), src_text(tspan))
+                if sc:
+                    b.call = (sc[0], sc[1], sc[2], src_text(tspan))
             elif t.startswith("falseEdge") or t.startswith("falseUnwind"):
                 b.succ = [("real", re.search(r"real: (bb\d+)", t).group(1))]
             else:
